@@ -12,6 +12,8 @@ claimed = {
  "C07": dict(text="Truth table by symbolic execution of the real ValidateRequest: per-scheme authentication verdicts, option flags and part presence are symbolic/forked; err==nil is compared on every path with the reference formula (OR over requirements of AND over schemes, operation list before document list; effective parameters = operation-level plus non-overridden path-level; body unless excluded), plus the callback protocol and the multi-error member count.", ref="DESIGN.md §6 C07"),
  "C08": dict(text="Symbolic status code (every value 0..999; decimal digits by bit-vector arithmetic so the response-map lookups fork on them), every subset of {200,404,2XX,4XX,default}; the definition used by the real ValidateResponse is identified through the header it demands and compared with a reference selection; header/body/content-type verdicts and body re-readability are asserted per path.", ref="DESIGN.md §6 C08"),
  "C06": dict(text="Four kernels on the real code: Content.Get against a reference precedence for every Content-Type text within the bound and every subset of declared keys; ValidateRequestBody dispatch (required/empty/undeclared/decoded verdict); request-side readOnly/writeOnly/required rules with symbolic option; urlencoded form decoding round trip on symbolic field texts.", ref="DESIGN.md §6 C06"),
+ "C14": dict(text="The real Validator.Middleware and both response wrappers are executed against a harness router, a client-side writer implementing net/http's contract, and a handler performing every call sequence up to the bound (symbolic body bytes); handler-invoked iff route found and request valid, error callback codes, and what reaches the client in strict / non-strict mode are asserted on every path; panics (e.g. invalid WriteHeader) are violations.", ref="DESIGN.md §6 C14"),
+ "C13": dict(text="Body bookkeeping: the real ValidateRequest on a one-shot body stream of symbolic bytes with every GetBody behaviour and an authentication callback that reads part of the body; 'reading Request.Body to EOF afterwards yields the original bytes' is asserted on every path. Default injection: the real visitJSONObject/visitXOFOperations with symbolic defaults and member presence; exactly-the-default / nothing-else-changed / once-only / idempotence / non-matching-branch assertions; parameter defaults re-decoded from the forwarded request.", ref="DESIGN.md §6 C13"),
  "C05": dict(text="Differential round trip: a reference serialiser written from the OAS 3.0.3 style table builds the request text from symbolic leaf texts (every printable-ASCII text within the length bound); the real decodeStyledParameter/ValidateParameter must return the same structure typed by the declared schema, found-flag and error class; string plumbing (prefix, delimiter, pair and index logic) is decided for all leaf texts at once.", ref="DESIGN.md §6 C05"),
  "C10": dict(text="Panic-freedom as reachability: every dereference, index, type assertion and explicit panic on every path of the real validators is an implicit assertion; inputs are all values within bounds against schemas whose only assumption is that the real Schema.Validate/T.Validate returned nil. A reached panic is replayed natively before it is reported.", ref="DESIGN.md §6 C10"),
  "C12": dict(text="Relational check with no oracle: the real VisitJSON is run in default, fail-fast, multi-error and customizer modes and through IsMatching on the same symbolic input; verdict equality and (JSON pointer resolves, Value is the value found there) for every SchemaError are asserted per path and closed by the solver.", ref="DESIGN.md §6 C12"),
